@@ -16,6 +16,7 @@ impl VxWs {
     #[verifier::external_body]
     pub fn write_message(&mut self, m: Message) -> (r: Result<(), VxWsErr>)
         ensures r is Ok, m is Text ==> final(self).sent() == old(self).sent().push(m->Text_0.kind), m is Binary ==> final(self).sent() == old(self).sent(),
+            final(self).script() == old(self).script(),   // writing does not consume what the client sends
     { unimplemented!() }
 }
 #[verifier::external_body]
@@ -204,10 +205,11 @@ pub open spec fn stream_wf(stream: &StreamContext, n_all: int) -> bool {
 //@|    ensures
 //@|        r is Ok ==> final(websocket).sent() == old(websocket).sent().push(1u8), // O:cmd.search.ok_answers_once
 //@|        r is Err ==> final(websocket).sent() == old(websocket).sent(), // O:cmd.search.err_answers_not
+//@|        final(websocket).script() == old(websocket).script(),
 //@   loop inner `filter_struct`
-//@|    invariant websocket.sent() == old(websocket).sent(),
+//@|    invariant websocket.sent() == old(websocket).sent(), websocket.script() == old(websocket).script(),
 //@   loop inner `match_filters(`
-//@|    invariant websocket.sent() == old(websocket).sent(), stream_wf(stream, all_msgs@.len() as int),
+//@|    invariant websocket.sent() == old(websocket).sent(), websocket.script() == old(websocket).script(), stream_wf(stream, all_msgs@.len() as int),
 //@|        stream_msgs_len == (if stream.filters_active { stream.filtered_msgs@.len() } else { all_msgs@.len() }),
 //@|    decreases stream_msgs_len - i,
 //@ end
@@ -407,6 +409,7 @@ pub assume_specification<T> [std::option::Option::<T>::replace] (o: &mut std::op
 //@|    ensures
 //@|        fc_wf(*final(file_context)), // O:cmd.state.wf
 //@|        one_reply(old(websocket).sent(), final(websocket).sent()), // O:cmd.one_reply
+//@|        final(websocket).script() == old(websocket).script(),
 //@|        st_err(spec_cmd_word(t), final(websocket).sent().last(), *old(file_context), *final(file_context)), // O:cmd.state.not_ok_changes_nothing
 //@|        st_unknown(spec_cmd_word(t), final(websocket).sent().last()), // O:cmd.state.unknown
 //@|        st_open(spec_cmd_word(t), final(websocket).sent().last(), *old(file_context), *final(file_context)), // O:cmd.state.open
@@ -417,11 +420,93 @@ pub assume_specification<T> [std::option::Option::<T>::replace] (o: &mut std::op
 //@|        st_readonly(spec_cmd_word(t), *old(file_context), *final(file_context)), // O:cmd.state.readonly
 //@|        st_needs_file(spec_cmd_word(t), final(websocket).sent().last(), *old(file_context)), // O:cmd.state.needs_file
 //@   loop inner `parsing_thread.rx.try_recv()`
-//@|    invariant websocket.sent() == old(websocket).sent(),
+//@|    invariant websocket.sent() == old(websocket).sent(), websocket.script() == old(websocket).script(),
 //@   loop inner `vx_plugin_state_name(`
 //@|    invariant_except_break
 //@|        !found_plugin,
 //@|    invariant
+//@|        websocket.script() == old(websocket).script(),
 //@|        !found_plugin ==> websocket.sent() == old(websocket).sent(),
 //@|        found_plugin ==> one_reply(old(websocket).sent(), websocket.sent()) && websocket.sent().last() != 3,
+//@ end
+
+// ---------- the event loop of a connection: every command text that is read is answered exactly once ----------
+// R12: the reading side of the websocket is a finite script of events (what the client and the read timeout produce); after the script
+// the connection is gone (a read error that is not a timeout). `process_file_context` (its sending step is under contract in unit
+// streamsearch, C16) writes status / stream-data frames only - binary frames, or text frames that are no replies (class 0) - and keeps
+// the stream index invariant (ASSUMED here).
+pub enum VxEv { Timeout, Text(String), Binary, Frame, Close, Ping, Pong, Gone }
+pub enum VxInMsg { Text(String), Binary(Vec<u8>), Frame(Vec<u8>), Close(u8), Ping(u8), Pong(u8) }
+#[derive(Debug)]
+pub enum VxRdErr { Timeout, Other }
+impl VxWs {
+    pub uninterp spec fn script(&self) -> Seq<VxEv>;
+    #[verifier::external_body]
+    pub fn read_message(&mut self) -> (r: Result<VxInMsg, VxRdErr>)
+        ensures
+            final(self).sent() == old(self).sent(),
+            old(self).script().len() == 0 ==> r == Err::<VxInMsg, VxRdErr>(VxRdErr::Other) && final(self).script() == old(self).script(),
+            old(self).script().len() > 0 ==> final(self).script() == old(self).script().skip(1) && (match old(self).script()[0] {
+                VxEv::Timeout => r == Err::<VxInMsg, VxRdErr>(VxRdErr::Timeout),
+                VxEv::Text(t) => r == Ok::<VxInMsg, VxRdErr>(VxInMsg::Text(t)),
+                VxEv::Binary => r is Ok && r->Ok_0 is Binary,
+                VxEv::Frame => r is Ok && r->Ok_0 is Frame,
+                VxEv::Close => r is Ok && r->Ok_0 is Close,
+                VxEv::Ping => r is Ok && r->Ok_0 is Ping,
+                VxEv::Pong => r is Ok && r->Ok_0 is Pong,
+                VxEv::Gone => r == Err::<VxInMsg, VxRdErr>(VxRdErr::Other),
+            }),
+    { unimplemented!() }
+}
+pub open spec fn n_replies(s: Seq<u8>) -> nat decreases s.len() {
+    if s.len() == 0 { 0 } else { n_replies(s.drop_last()) + (if s.last() != 0 { 1nat } else { 0nat }) }
+}
+pub open spec fn texts_in(ev: Seq<VxEv>) -> nat decreases ev.len() {
+    if ev.len() == 0 { 0 } else { texts_in(ev.drop_last()) + (if ev.last() is Text { 1nat } else { 0nat }) }
+}
+#[verifier::external_body]
+pub fn process_file_context(log: &VxLogger, fc: &mut FileContext, websocket: &mut VxWs) -> (r: Result<(), VxWsErr>)
+    requires fc_wf(Some(*old(fc))),
+    ensures fc_wf(Some(*final(fc))), n_replies(final(websocket).sent()) == n_replies(old(websocket).sent()), final(websocket).script() == old(websocket).script(),
+{ unimplemented!() }
+pub proof fn lemma_one_reply_counts(s0: Seq<u8>, s1: Seq<u8>)
+    requires one_reply(s0, s1),
+    ensures n_replies(s1) == n_replies(s0) + 1,
+{
+    assert(s1.drop_last() =~= s0);
+}
+pub proof fn lemma_texts_step(ev: Seq<VxEv>, n: int)
+    requires 0 <= n < ev.len(),
+    ensures texts_in(ev.take(n + 1)) == texts_in(ev.take(n)) + (if ev[n] is Text { 1nat } else { 0nat }),
+{
+    assert(ev.take(n + 1).drop_last() =~= ev.take(n));
+}
+//@ extract src/bin/adlt/remote.rs region `loop { if let Some(ref mut fc) = file_context {` .. `loop { if let Some(ref mut fc) = file_context {` in fn remote
+//@   sig #[verifier::loop_isolation(false)] #[verifier::allow_complex_invariants] pub fn connection_loop(log: VxLogger, mut websocket: VxWs, mut file_context: Option<FileContext>, mut last_all_msgs_len: usize) -> (r: (VxWs, Ghost<int>))
+//@   tail `(websocket, Ghost(n_ev))`
+//@   sub R12 `tungstenite::Error::Io(ref e) if e.kind() == std::io::ErrorKind::WouldBlock || e.kind() == std::io::ErrorKind::TimedOut` => `VxRdErr::Timeout`
+//@   sub R12 `Message::` => `VxInMsg::` *
+//@   sub R12 `ctx.all_msgs.len()` => `ctx.all_msgs.len()` ?
+//@   spec
+//@|    requires fc_wf(file_context),
+//@|    ensures
+//@|        0 <= r.1@ <= websocket.script().len() && r.0.script() == websocket.script().skip(r.1@),
+//@|        n_replies(r.0.sent()) == n_replies(websocket.sent()) + texts_in(websocket.script().take(r.1@)), // O:cmd.loop.one_reply_each (over the whole connection: as many replies as command texts read - every command is answered exactly once, nothing else is a reply)
+//@   hint start
+//@|    let ghost ev0 = websocket.script();
+//@|    let ghost sent0 = websocket.sent();
+//@|    let ghost mut n_ev: int = 0;
+//@|    proof { assert(ev0.take(0) =~= Seq::<VxEv>::empty()); }
+//@   hint after `let msg = websocket.read_message();`
+//@|    proof {
+//@|        if n_ev < ev0.len() { lemma_texts_step(ev0, n_ev); assert(ev0.skip(n_ev).skip(1) =~= ev0.skip(n_ev + 1)); n_ev = n_ev + 1; }
+//@|    }
+//@|    let ghost sent_b = websocket.sent();
+//@   hint after `process_incoming_text_message(&log, t, &mut file_context, &mut websocket)`
+//@|    ; proof { if one_reply(sent_b, websocket.sent()) { lemma_one_reply_counts(sent_b, websocket.sent()); } }
+//@   loop inner `websocket.read_message()`
+//@|    invariant
+//@|        0 <= n_ev <= ev0.len(), websocket.script() == ev0.skip(n_ev), fc_wf(file_context),
+//@|        n_replies(websocket.sent()) == n_replies(sent0) + texts_in(ev0.take(n_ev)), // O:cmd.loop.inv
+//@|    decreases ev0.len() - n_ev,
 //@ end
